@@ -22,6 +22,13 @@ TAILS = {
     0: bytes(14),
     1: bytes((i * 73 + 41) & 0xff for i in range(14)),
 }
+# operand-byte boundary fillings: the byte(s) right after the 16-bit pattern take field-boundary values (5-, 6-, 7-, 8-bit
+# signed/unsigned limits); only one representative per (mnemonic, operand shape) is re-assembled for these
+BOUNDARY_BYTES = [0x0f, 0x10, 0x11, 0x1f, 0x20, 0x3f, 0x40, 0x7f, 0x80, 0x81, 0xf0, 0xff]
+for _i, _b in enumerate(BOUNDARY_BYTES):
+    TAILS[10 + _i] = bytes([_b]) + bytes(13)            # boundary value in the first operand byte
+    TAILS[30 + _i] = bytes([0, _b]) + bytes(12)         # ... in the second operand byte (16-bit operands, high/low byte)
+BOUNDARY_TAIL_IDS = sorted(k for k in TAILS if k >= 10)
 A = 0x1000
 POS2_EXTRA = {"dspic", "pic24"}
 
@@ -146,10 +153,11 @@ def work(item):
                 cand.append(ps[0])
                 if len(ps) > 1 and k > 0:
                     cand += rng.sample(ps[1:], min(k, len(ps) - 1))
-            cap = 2500
+            cap = 2500 if mode != "reps0" else 400
             if len(cand) > cap:
                 first = [byshape[key][0] for key in sorted(byshape)]
-                rng.shuffle(first)
+                if mode != "reps0":
+                    rng.shuffle(first)
                 cand = first[:cap]
     st = out["stats"]
     for p in cand:
@@ -194,6 +202,9 @@ def items_for(cpus, tier, seed):
         for pos in positions(c):
             for tail_id in ([1] if quick else [0, 1]):
                 items.append((c["name"], c["bpa"], pos, tail_id, "reps" if quick else "all", seed, 2, None))
+        # deterministic in both tiers: representatives only (k = 0, no seeded sampling)
+        for tail_id in BOUNDARY_TAIL_IDS:
+            items.append((c["name"], c["bpa"], 0, tail_id, "reps0", 0, 0, None))
     return items
 
 
